@@ -37,6 +37,8 @@ class Unit:
     note: str = ""
     bounded_always: bool = False                          # run the bounded stand-in on every run (its failures are concrete inputs)
     reg_factory: Optional[Callable] = None                # registry (theories/config) of the module the harness was written for
+    uses: List[str] = field(default_factory=list)         # lemma units: names (suffixes) of the obligations used as hypotheses;
+                                                          # each must be discharged by another unit IN THE SAME RUN
 
 
 class H:
@@ -316,6 +318,16 @@ def report(prop, tier, seed, units, results, findings, wall, meta) -> int:
     discharged = sum(1 for e in by_name.values() if e["verdict"] == "unsat")
     refuted = {n: e for n, e in by_name.items() if e["verdict"] == "sat"}
     unknown = {n: e for n, e in by_name.items() if e["verdict"] == "unknown"}
+
+    # lemma units: every hypothesis they cite must be an obligation discharged in this very run (outright, or outside a listed
+    # known-finding class); otherwise the lemma's conclusion is not supported and the run is undecided
+    for u in units:
+        for hyp in getattr(u, "uses", []) or []:
+            match = [n for n in by_name if n.endswith(hyp) or hyp in n]
+            if not match:
+                undecided.append(f"{u.name}: lemma hypothesis '{hyp}' matches no obligation generated in this run")
+            elif any(by_name[n]["verdict"] == "unknown" for n in match):
+                undecided.append(f"{u.name}: lemma hypothesis '{hyp}' is undecided in this run")
 
     # known findings
     known_idx = {(f["obligation"], f["class"]): f for f in findings if f.get("status", "known") == "known"}
